@@ -86,6 +86,18 @@ def run(chk):
             fa.gstats_term(probe), cq.fl(float(pooled.t)), cq.fl(2.0 ** -26), cq.fl(1e-9 * sc), cq.fl(score)))
         xterms.append("{| ex_u := %s; ex_f := %s; ex_rU := %s; ex_D := %s; ex_x := %s; ex_rtol := %s; ex_atol := %s; ex_out := %s; ex_ux := %s |}" % (
             fa.ubm_term(ubm), fa.fa_term(m, kind), cq.nat(rU), cq.nat(D), fa.gstats_term(probe), cq.fl(2.0 ** -26), cq.fl(1e-10), cq.vec(x), cq.vec(ux)))
+        # call order: score, change U through the public setter, score again - the channel factor must follow the CURRENT U
+        if i % 2 == 0:
+            Unew = np.asarray(m.U) + g.normal(size=np.asarray(m.U).shape) * 0.6
+            m.U = Unew
+            ref = fa.make_machine(kind, ubm, rU, rV, U=Unew, V=np.asarray(m.V) if kind == "jfa" else None, Dv=np.asarray(m.D))
+            s_after, s_ref = float(m.score(model, probe)), float(ref.score(model, probe))
+            chk.count(1, key=("U reassigned", kind))
+            if not abs(s_after - s_ref) <= 1e-9 * max(1.0, abs(s_ref)):
+                chk.fail("after assigning a new U the score %.12g is not that of a fresh machine with the same U, V, D (%.12g): stale channel-factor cache"
+                         % (s_after, s_ref), dict(ctx, U_new=hexlist(Unew)))
+            if not np.allclose(np.asarray(m.estimate_x(probe)), np.asarray(ref.estimate_x(probe)), rtol=1e-9, atol=1e-12):
+                chk.fail("after assigning a new U estimate_x is not the posterior mean for the current U", dict(ctx, U_new=hexlist(Unew)))
     bad, info = cq.run_cases("C11s", fa.IMPORTS, "sc_case", "sc_check", sterms, shard=100)
     chk.correspondence("ISVMachine.score / JFAMachine.score ~ LF.score1 (client mean, pooled probe, U x, normalised)", len(sterms), bad, info)
     bad, info = cq.run_cases("C11x", fa.IMPORTS, "ex_case", "ex_check", xterms, shard=100)
